@@ -225,7 +225,7 @@ func runC04(c *Ctx) {
 	r := c.R
 	r.Assume("ground truth is attached by construction: the statement forms are non-idempotent or unparseable by the documented rules; EXECUTE/BATCH-by-id inherit the class of the text the id was prepared from through this proxy, ids the proxy never saw prepared are not positively idempotent")
 	r.Assume("'may have been applied' is decided from the backend's view: the request bytes were fully received and the outcome is not one of unavailable / bootstrapping / read timeout / unprepared")
-	r.Require("sequences_run", "partial_reply_cases", "lost_before_read_cases")
+	r.Require("sequences_run", "partial_reply_cases", "lost_before_read_cases", "proxy_closed_connections_with_requests_in_flight")
 	type job struct {
 		hosts, conns int
 		class        c04Class
@@ -372,6 +372,12 @@ func runC04(c *Ctx) {
 			b.other.Close()
 			b.close()
 			delete(beds, bk)
+		}
+	}
+	// requests in flight on connections that the proxy closes itself (idle timeout, host removed)
+	for i := 0; i < c.Pick(4, 200); i++ {
+		if c.Mine(i) && c.Replay == nil {
+			proxyClosesConn(c, 1000+i, []string{"idle-timeout", "host-removed"}[i%2])
 		}
 	}
 	var _ = px.HookCount
